@@ -1056,7 +1056,10 @@ func main() {
 		bound, maxSched, reps = 3, 400000, 200
 	}
 	rep := ev.NewReport(prop, "exploration")
-	p := &pool.Pool{Handler: "concmc", N: 16, Timeout: 60 * time.Second, MemMB: 4096}
+	// Timeout = longest silence of a worker before it is declared hung.  A wall-clock verdict: far above
+	// what a shard needs between two progress marks even on a machine that runs several checks at once
+	// (a thorough C19 run reported four "hangs" at 60 s while three other thorough runs shared the cores)
+	p := &pool.Pool{Handler: "concmc", N: 16, Timeout: 5 * time.Minute, MemMB: 4096}
 	var tasks [][]byte
 	handleNotRun := 0
 	for _, sc := range allScenarios() {
